@@ -951,6 +951,7 @@ RETCODE adfFileReadNextBlock ( struct AdfFile * const file )
     SECTNUM nSect;
     struct bOFSDataBlock *data;
     RETCODE rc = RC_OK;
+    BOOL fromExt = FALSE;
 
     data =(struct bOFSDataBlock *) file->currentData;
 
@@ -1000,7 +1001,7 @@ RETCODE adfFileReadNextBlock ( struct AdfFile * const file )
                 file->posInExtBlk = 0;
             }
             nSect = file->currentExt->dataBlocks[MAX_DATABLK-1-file->posInExtBlk];
-            file->posInExtBlk++;
+            fromExt = TRUE;
         }
     }
 
@@ -1013,9 +1014,14 @@ RETCODE adfFileReadNextBlock ( struct AdfFile * const file )
     }
 
     rc = adfReadDataBlock ( file->volume, nSect, file->currentData );
-    if ( rc != RC_OK )
+    if ( rc != RC_OK ) {
         adfEnv.eFct ( "adfReadNextFileBlock : error reading data block %d / %d, file '%s'",
                        file->nDataBlock, nSect, file->fileHdr->fileName );
+        /* the cursor does not move: the same block is asked for again next time */
+        return rc;
+    }
+    if ( fromExt )
+        file->posInExtBlk++;
 
     if (isOFS(file->volume->dosType) && data->seqNum!=file->nDataBlock+1)
         (*adfEnv.wFct)("adfReadNextFileBlock : seqnum incorrect");
